@@ -15,7 +15,7 @@ const (
 
 type Std struct {
 	W                           WorldSpec
-	Alice, Carol, Bob           *ActorDir
+	Alice, Carol, Bob, Quinn    *ActorDir
 	Dave, Erin                  string // remote actors on r.example
 	Note1, Note2                string // notes owned by a.example
 	Col1, OCol1                 string // Collection / OrderedCollection owned by a.example
@@ -26,6 +26,9 @@ type Std struct {
 }
 
 type StdOpt struct {
+	Scheme             string // serving scheme of server A ("" = https)
+	MintScheme         string
+	QueryActor         bool // server A also has 'quinn', whose box IRIs carry a query string
 	Social, Federating bool
 	OnFollow           int
 	TwoServers         bool
@@ -45,14 +48,23 @@ func remoteActor(name string) J {
 
 func newStd(o StdOpt) *Std {
 	s := &Std{}
-	s.Alice, s.Carol, s.Bob = actorDir(hostA, "alice"), actorDir(hostA, "carol"), actorDir(hostB, "bob")
+	s.Alice, s.Carol, s.Bob = actorDirS(o.Scheme, hostA, "alice"), actorDirS(o.Scheme, hostA, "carol"), actorDir(hostB, "bob")
+	s.Quinn = actorDirS(o.Scheme, hostA, "quinn")
+	scA := "https"
+	if o.Scheme != "" {
+		scA = o.Scheme
+	}
 	s.Dave, s.Erin = "https://"+hostR+"/u/dave", "https://"+hostR+"/u/erin"
-	s.Note1, s.Note2 = "https://"+hostA+"/n/1", "https://"+hostA+"/n/2"
-	s.Col1, s.OCol1 = "https://"+hostA+"/c/1", "https://"+hostA+"/oc/1"
+	s.Note1, s.Note2 = scA+"://"+hostA+"/n/1", scA+"://"+hostA+"/n/2"
+	s.Col1, s.OCol1 = scA+"://"+hostA+"/c/1", scA+"://"+hostA+"/oc/1"
 	s.RNote = "https://" + hostR + "/n/9"
 	s.RLike = "https://" + hostR + "/act/like1"
-	s.Follow1 = "https://" + hostA + "/f/1"
-	a := ServerSpec{Host: hostA, Social: o.Social, Federating: o.Federating, Actors: []string{"alice", "carol"},
+	s.Follow1 = scA + "://" + hostA + "/f/1"
+	actors := []string{"alice", "carol"}
+	if o.QueryActor {
+		actors = append(actors, "quinn")
+	}
+	a := ServerSpec{Host: hostA, Scheme: o.Scheme, MintScheme: o.MintScheme, Social: o.Social, Federating: o.Federating, Actors: actors,
 		OnFollow: o.OnFollow, DeliverDepth: o.DeliverDepth, ForwardDepth: o.ForwardDepth, Transport: o.Transport}
 	a.Docs = []DocSpec{
 		{s.Note1, mustJSON(J{"@context": asCtx, "type": "Note", "id": s.Note1, "attributedTo": s.Alice.ID, "content": "one", "published": "2019-01-01T00:00:00Z"})},
@@ -157,6 +169,11 @@ func corpus(prop string) []NamedScenario {
 	in("update", d, func(s *Std) J { return s.act("Update", J{"object": note(s)}) })
 	in("delete", d, func(s *Std) J { return s.act("Delete", J{"object": s.RNote}) })
 	in("follow-accept", d, func(s *Std) J { return s.act("Follow", J{"object": s.Alice.ID}) })
+	in("follow-accept-again", d, func(s *Std) J { return s.act("Follow", J{"object": s.Alice.ID}) }, func(s *Std) {
+		// the follower is already in the followers collection
+		s.W.Servers[0].Docs = append(s.W.Servers[0].Docs, DocSpec{s.Alice.Followers,
+			mustJSON(J{"@context": asCtx, "type": "Collection", "id": s.Alice.Followers, "items": []string{s.Dave}})})
+	})
 	rej := d
 	rej.OnFollow = 2
 	in("follow-reject", rej, func(s *Std) J { return s.act("Follow", J{"object": s.Alice.ID}) })
